@@ -129,6 +129,10 @@ func init() {
 		}
 		lim := new(big.Int).Lsh(big.NewInt(1), uint(k))
 		q := new(big.Rat).SetInt(lim)
+		if s.run.floatInputs == nil {
+			s.run.floatInputs = map[string]bool{}
+		}
+		s.run.floatInputs[argStr(a[0])] = true
 		if s.eng.cfg.RealInputs {
 			t := s.newInput(argStr(a[0]), SReal)
 			s.assumeRaw(s.ctx.And(s.ctx.Le(s.ctx.RealConst(new(big.Rat).Neg(q)), t), s.ctx.Le(t, s.ctx.RealConst(q))))
